@@ -143,7 +143,7 @@ func c05rShape(r *rand.Rand, idx int) *c05rReq {
 		req.parts[f.Name] = "form"
 	}
 	r.Shuffle(len(fields), func(i, j int) { fields[i], fields[j] = fields[j], fields[i] })
-	req.shape = &g.Shape{Root: g.StructOf(fields...), TagKey: "json"}
+	req.shape = &g.Shape{Root: g.StructOf(fields...), TagKey: "json", ConstrainedPresent: true}
 	req.pattern = pattern
 	return req
 }
